@@ -2,6 +2,7 @@
 from valve_common import *
 from quake_common import quake_specs, quake_case
 from u2_common import u2_specs, u2_case
+from gs_common import gs_specs, gs_case
 
 ID = "C13"
 PROPS_FILE = "C13"
@@ -10,7 +11,7 @@ TRUSTED = [
     "Coq 8.16.1 kernel; theorems closed under the global context (Section hypothesis: the bzip2 oracle returns a value or an error)",
     "extraction, driver, Rust harness with a counting global allocator (largest single request and peak live bytes per case) + scripted transport hook",
     "allocator internals and std collections' growth policy are measured, not modelled; the model records only field-driven reservations (Reserve events)",
-    "entry points modelled so far: valve::query",
+    "reservation theorems: valve, quake, unreal2; gamespy one/two/three and the single-game protocols are measured through the same allocator on count / index / offset mutations (no theorem yet)",
 ]
 RULE = ("extreme values written into every length / count / size / index position of Spec-generated valid scripts (split headers, compressed size and CRC, player and rule counts, "
         "string terminators) plus the C01 malformed stream; the implementation's measured largest single allocation must be <= 16 MiB, peak live <= 64 MiB, and the number of "
@@ -68,6 +69,55 @@ def gen_cases(tier, rng):
             kind, evs = mutate(u["events"], r)
             cases.append({"id": "umut/%d/%d" % (u["seed"], j), "hex": u2_case(7778, None, None, evs),
                           "meta": {"stream": "unreal2-mutations", "retries": 0, "n": len(evs)}})
+    # GameSpy: counts and indexes are text (maxplayers, numplayers, player_<n>, table rows, field offsets)
+    for ver in (1, 2, 3):
+        for g in [x for x in gs_specs(ver, [rng.next() >> 1 for _ in range(80 if tier == "quick" else 2000)]) if x["fits"]]:
+            for j in range(6):
+                evs = list(g["events"])
+                i = r.below(len(evs))
+                d = evs[i]
+                k = r.below(4)
+                if ver == 1 and k < 3:
+                    big = r.choice([b"4294967295", b"4000000000", b"18446744073709551615", b"99999999999999999999", b"65536"])
+                    what = r.choice([b"\\maxplayers\\", b"\\numplayers\\", b"\\player_", b"\\queryid\\"])
+                    d = d + what + big + (b"\\x" if what == b"\\player_" else b"")
+                elif ver == 2 and k < 3 and len(d) > 8:
+                    # a table's row count byte: the byte after a zero byte following the variables
+                    pos = [p for p in range(5, len(d) - 1) if d[p] == 0 and d[p - 1] == 0]
+                    if pos:
+                        p0 = r.choice(pos)
+                        d = d[:p0 + 1] + bytes([r.choice([255, 254, 128, 64])]) + d[p0 + 2:]
+                elif ver == 3 and k < 3 and len(d) > 20:
+                    # a field offset byte: after "<name>_\0"
+                    pos = [p for p in range(5, len(d) - 1) if d[p] == 0 and d[p - 1] == 0x5f]
+                    if pos:
+                        p0 = r.choice(pos)
+                        d = d[:p0 + 1] + bytes([r.choice([255, 254, 128])]) + d[p0 + 2:]
+                else:
+                    kind, evs = mutate(evs, r)
+                    d = None
+                if d is not None:
+                    evs[i] = d
+                cases.append({"id": "gs%d/%d/%d" % (ver, g["seed"], j), "hex": gs_case(ver, 7777, 0, None, evs),
+                              "meta": {"stream": "gamespy%d-counts" % ver, "retries": 0, "n": len(evs)}})
+    # single-game protocols: JC2M player count, Mindustry lengths, the Valve-based ones
+    for game in range(6):
+        seeds_g = [rng.next() >> 1 for _ in range(40 if tier == "quick" else 1000)]
+        outs = run_model([(bytes([150, game]) + x.to_bytes(8, "big")).hex() for x in seeds_g])
+        for x, o in zip(seeds_g, outs):
+            evs0 = [bytes.fromhex(h) for h in o.split("|")[0].split(",")] if o.split("|")[0] else []
+            if not evs0 or max(len(e) for e in evs0) > 1400:
+                continue
+            for j in range(4):
+                kind, evs = mutate(evs0, r)
+                if r.chance(1, 2) and evs and evs[-1]:
+                    d = evs[-1]
+                    pos = r.below(len(d))
+                    xv = r.choice(EXTREME)
+                    evs[-1] = d[:pos] + xv + d[pos + len(xv):]
+                cases.append({"id": "game%d/%d/%d" % (game, x, j),
+                              "hex": (bytes([50, game]) + (5000).to_bytes(2, "big") + enc_ts(None) + enc_events(evs) + b"\x00\x00\x00").hex(),
+                              "meta": {"stream": "single-games", "retries": 0, "n": len(evs)}})
     return cases
 
 
@@ -102,4 +152,5 @@ def extra_runs(tier, rng, ctx):
         a = parse_alloc(i.split("\t#", 1)[1]) if i and "\t#" in i else None
         if a:
             worst = max(worst, a[0])
-    return [], {"largest_single_allocation_observed": worst, "covered_entry_points": ["valve::query", "quake one/two/three", "unreal2::query"]}
+    return [], {"largest_single_allocation_observed": worst, "covered_entry_points": ["valve::query", "quake one/two/three", "unreal2::query"],
+                "covered_by_measurement_only": ["gamespy one/two/three", "ffow", "savage2", "jc2m", "mindustry", "theship", "battalion1944"]}
